@@ -195,11 +195,21 @@ func (c *checker) jsonJobs(jobs *[]job) {
 							var fb ct.SignedTreeHead
 							text := `{"sth_version":0,"tree_size":` + string(num(size)) + `,"timestamp":` + string(num(ts)) + `,"sha256_root_hash":"` + ref.B64(root) +
 								`","tree_head_signature":"` + ref.B64(sv.b) + `","log_id":"` + ref.B64(full.LogID[:]) + `"}`
-							c.r.Eval(1)
-							if err := json.Unmarshal([]byte(text), &fb); err != nil || fb.TreeSize != size || fb.Timestamp != ts || fb.SHA256RootHash != full.SHA256RootHash ||
-								fb.LogID != full.LogID || fb.Version != 0 || !ds.Equal(first(refDS(tls.DigitallySigned(fb.TreeHeadSignature)))) {
-								c.r.Violation("json-unmarshal-mismatch SignedTreeHead", fmt.Sprintf("SignedTreeHead %s: %s decoded to %+v err=%v", vid, clip(text), fb, err),
-									caseDesc{API: "json.Unmarshal(SignedTreeHead)", Value: vid, Input: clip(text), Lib: fmt.Sprintf("%+v err=%v", fb, err), Ref: "lossless"})
+							// the same JSON value may be spelled with string escapes (RFC 8259 s7): "/" as "\/" (PHP's default)
+							// or "\u002f", "+" as "\u002b"
+							texts := []string{text}
+							if strings.ContainsAny(text, "/+") {
+								texts = append(texts, strings.ReplaceAll(text, "/", `\/`), strings.ReplaceAll(strings.ReplaceAll(text, "/", `\u002f`), "+", `\u002b`))
+								c.r.Add("json_texts_with_escaped_base64", 2)
+							}
+							for _, text := range texts {
+								fb = ct.SignedTreeHead{}
+								c.r.Eval(1)
+								if err := json.Unmarshal([]byte(text), &fb); err != nil || fb.TreeSize != size || fb.Timestamp != ts || fb.SHA256RootHash != full.SHA256RootHash ||
+									fb.LogID != full.LogID || fb.Version != 0 || !ds.Equal(first(refDS(tls.DigitallySigned(fb.TreeHeadSignature)))) {
+									c.r.Violation("json-unmarshal-mismatch SignedTreeHead", fmt.Sprintf("SignedTreeHead %s: %s decoded to %+v err=%v", vid, clip(text), fb, err),
+										caseDesc{API: "json.Unmarshal(SignedTreeHead)", Value: vid, Input: clip(text), Lib: fmt.Sprintf("%+v err=%v", fb, err), Ref: "lossless"})
+								}
 							}
 						}
 					})
